@@ -22,8 +22,11 @@ CLAIM = dict(
           "windows 1-8, with returned bytes and final simulated memory checked byte for byte."),
     design="3/C07",
     note=("Machine memory semantics (read/write/fill/link commands) is a Lean specification, simulated in Python. "
-          "Composition with C06 (each chunk completes exactly once with its own reply) is by the C06 theorems; the "
-          "receive-length corner for unusual buffer sizes is checked by the truncating simulated socket."),
+          "The fault-schedule clause is proved as the composition theorems read_through_burst / write_through_burst "
+          "(Props/C06: for every environment and window, a burst that ends `done` assembles exactly the stored bytes / "
+          "leaves exactly memory[addr := data]) and tied to the code here by running the real read/write under fault "
+          "scripts against the Lean models readThrough / memAfter; the receive-length corner for unusual buffer sizes "
+          "is checked by the truncating simulated socket."),
     technique="Lean 4 theorems over chunking/memory model + request-trace correspondence against a simulated machine")
 
 THEOREMS = ["dtype_table_is_hardware_rule", "dtype_sound", "read_partition", "write_partition",
@@ -379,9 +382,22 @@ def run(ctx):
     cases = [gen_case(ctx.rng, {k: v["fields"] for k, v in table.items()}) for _ in range(n)]
     for i in range(0, len(cases), 2000):
         eval_cases(ctx, cases[i:i + 2000], table)
+    # composition with C06 (theorems read_through_burst / write_through_burst in Props/C06): the real
+    # SCPConnection.read/write under fault schedules vs the Lean models readThrough / memAfter fed with
+    # the recorded environment.  Here a disagreement is verdict-bearing.
+    from harness import c06
+    ctx.rw_decides = True
+    rw = [c06.gen_rw_case(ctx.rng) for _ in range(ctx.scale(200, 4000) * (4 if ctx.extended else 1))]
+    for i in range(0, len(rw), 500):
+        c06.eval_rw_cases(ctx, rw[i:i + 500])
 
 
 def replay(ctx, payload):
     from harness import common
     ctx.extra["rule"] = RULE
-    eval_cases(ctx, [payload["case"]], independent_struct_table(common.REPO))
+    if "rw" in payload["case"]:
+        from harness import c06
+        ctx.rw_decides = True
+        c06.eval_rw_cases(ctx, [payload["case"]])
+    else:
+        eval_cases(ctx, [payload["case"]], independent_struct_table(common.REPO))
